@@ -191,4 +191,50 @@ def GOp.toU : GOp → UOp
   | .save x mo mid => .save x mo mid
   | .crash x mo mid k torn => .interrupt x mo mid k torn []
 
+/-! ### reads with non-default options (`read_mesh_only`, `read_npy`, `save`)
+
+`read_directory(file_type, d, read_mesh_only=…, read_npy=…, save=…)`: the cache is used iff `read_npy` and the sentinel
+exists; a mesh-only read hands back the node and element tables only (of the cache or of the parse); the automatic save
+happens only for a complete parse (`save`, not `read_mesh_only`) when there is no sentinel.  `byExistence` is the slip
+"a mesh-only read needs nothing but the node and element files, so it trusts their mere existence": kept as a switch
+for the counterexample; the working tree must implement `byExistence = false`. -/
+
+structure ROpt where
+  meshOnly : Bool
+  readNpy : Bool
+  save : Bool
+deriving Repr, DecidableEq
+
+def ROpt.default : ROpt := ⟨false, true, true⟩
+
+/-- the node and element tables of what a read loaded / parsed -/
+def meshPart (d : Dir) : Dir
+  | .nodes => d .nodes
+  | .elements => d .elements
+  | _ => none
+
+def cacheTrusted (byExistence : Bool) (o : ROpt) (d : Dir) : Bool :=
+  o.readNpy && ((d .sentinel).isSome || (byExistence && o.meshOnly && (d .nodes).isSome && (d .elements).isSome))
+
+/-- (what the caller gets, the directory afterwards) -/
+def readOpt (byExistence : Bool) (o : ROpt) (d : Dir) (src : Obj) (mid : List Step) : Dir × Dir :=
+  let fromCache := cacheTrusted byExistence o d
+  let full := if fromCache then d else expected src false
+  (if o.meshOnly then meshPart full else full,
+   if !fromCache && o.save && !o.meshOnly && (d .sentinel).isNone then (wrap mid src.tag).foldl Step.apply d else d)
+
+/-- histories that also contain reads with options -/
+inductive XOp
+  | u (op : UOp)
+  | readOpt (o : ROpt) (src : Obj) (mid : List Step)
+deriving Repr, DecidableEq
+
+def XOp.good : XOp → Bool
+  | .u op => op.good
+  | .readOpt _ src mid => GoodMid mid src false
+
+def xstep (d : Dir) : XOp → Dir
+  | .u op => ustep d op
+  | .readOpt o src mid => (readOpt false o d src mid).2
+
 end Femio.C05
